@@ -199,7 +199,8 @@ def run(tier):
     #    very long identifiers and numbers), and programs at and beyond each declaration limit
     from ..gen import feat_lex, limits
     add_compile_group("lex", feat_lex.sources(rng.fork("lex"), quick))
-    add_compile_group("limits", [src for _, src in limits.decl_limit_family() + limits.count_family() + limits.compound_after_constants()])
+    limit_fam = limits.decl_limit_family() + limits.count_family() + limits.compound_after_constants()
+    add_compile_group("limits", [src for _, src in limit_fam])
 
     ck.log("running %d cases (%d prefix scripts)" % (len(cases), len(scripts)))
     results = run_cases(cases)
@@ -240,6 +241,35 @@ def run(tier):
                 for problem in st["problems"]:
                     ck.violation(signature_of(problem), {"kind": "compile", "source": src, "problem": problem,
                                                          "origin": cid})
+    # 7. what is beyond a stated limit must be *rejected*: a program with one element, part, local or capture too many that
+    #    is compiled into a function is not a runnable function. Accept / reject of every program of the limit families
+    #    (254..257 of everything, through every declaring construct and every arrangement of literal text around
+    #    interpolation parts) is compared with the reference model's own reading of the limits.
+    from . import modelcheck
+    lp = [{"name": "limit:" + name, "steps": [("snip", src)], "mods": [("limmod", "var v = 5;\n")], "budget": 3000000} for name, src in limit_fam]
+    models = modelcheck.run_models(lp, chunk=4)
+    verdict = {}
+    for case, res in zip(cases, results):
+        if case["id"].startswith("limits-") and "abort" not in res:
+            for i, st in enumerate(res.get("steps", [])):
+                verdict[sources[case["id"]][i]] = st.get("res")
+    for (name, src), m in zip(limit_fam, models):
+        if "crash" in m or src not in verdict:
+            continue
+        mres = m["view"][0].get("res")
+        if mres in ("unsupported", "budget"):
+            ck.count("limit_programs_not_decided_by_model")
+            continue
+        ck.count("limit_programs_compared")
+        want_err = mres == "compile_error"
+        got_err = verdict[src] == "err"
+        # (the other direction - the implementation rejects with a limit message what the model would run - is an encoding
+        # limit the model does not know, e.g. hidden locals of a loop; C04 checks that such a rejection carries a limit message)
+        if want_err and not got_err:
+            ck.violation("LimitAcceptance(%s)" % re.sub(r"[/\d]+$", "", name), {
+                "kind": "compile", "source": src, "origin": "limit:" + name,
+                "problem": "the program is %s a stated limit (%s) but compile %s it" % (
+                    "beyond" if want_err else "within", m["view"][0].get("msg") if want_err else "model accepts", "accepted" if want_err else "rejected")})
     if tier == "thorough":
         fuzz_stage(ck)
     return ck.finish("inputs: every char-boundary prefix of the %d corpus scripts and core.yl, token/char mutants of "
